@@ -82,7 +82,7 @@ Diagnose ==
     ELSE IF ~Rec.boundary_fixed THEN "after " \o Rec.name \o ": total quantum numbers of a non-zero state changed"
     ELSE IF PoolOK /\ ~ActionOK THEN "after " \o Rec.name \o ": the projections before / after the call are not related by the " \o Rec.rule \o " action of Sector.tla"
     ELSE "after " \o Rec.name \o ": an object disappeared from / appeared in the pool unexpectedly"
-TReject == /\ HasRec /\ ((Rec.ev # "op") \/ (OpOK = FALSE))
+TReject == /\ HasRec /\ (IF Rec.ev # "op" THEN TRUE ELSE (OpOK = FALSE))        \* IF: TLC evaluates both sides of an action-level \/
            /\ PrintT(<<"REJECT", tid, l, Rec.ev, Diagnose>>)
            /\ tid' = tid + 1 /\ l' = 1 /\ known' = {} /\ st' = <<>>
 TraceNext == TOp \/ TNextTrace \/ TReject
